@@ -59,4 +59,5 @@ def run(ctx):
                          "projection by the harness: names/targets/xattrs as hex, content as sha256+size, mtime as sec.nsec, permission bits incl. setuid/setgid/sticky, uid/gid, device major:minor, hard-link groups as sets of paths; byte-level fidelity is decided on these tokens",
                          "each tree runs under one configuration; the 54 configurations are spread over the trees (attribute x configuration pairs are sampled, not enumerated)",
                          "file system: the sandbox's ext4, as root; ACLs, other operating systems and atime/ctime are out of scope; sockets are not generated (restore does not recreate them)",
-                         "symlink permission bits and directory sizes are not compared; xattrs only on files and directories"])
+                         "symlink permission bits and directory sizes are not compared; xattrs only on files and directories",
+                         "every tree contains directories none of whose children is restored (empty top-level / nested, only an empty directory, only a socket) with non-default mode, old mtime and xattrs; sockets themselves are not compared (restore does not recreate them)"])
